@@ -7,7 +7,6 @@ import (
 	"strings"
 	"time"
 
-	"github.com/getlantern/goexpr"
 	"github.com/getlantern/sqlparser"
 	"github.com/getlantern/zenodb/core"
 	"github.com/getlantern/zenodb/sql"
@@ -185,15 +184,10 @@ func pushdownAllowed(opts *Opts, query *sql.Query) (bool, error) {
 }
 
 func hasInSubQuery(query *sql.Query) bool {
-	found := false
-	if query.Where != nil {
-		query.Where.WalkLists(func(list goexpr.List) {
-			if _, ok := list.(*sql.SubQuery); ok {
-				found = true
-			}
-		})
-	}
-	return found
+	// Note - we use the sub queries collected while parsing rather than walking
+	// query.Where with WalkLists, because not all goexpr implementations of
+	// WalkLists are safe to call (geo's REGION_CITY recurses endlessly).
+	return len(query.WhereSubQueries) > 0
 }
 
 // partitionKeysKept reports whether the partition of a point is determined by the row key that
